@@ -33,7 +33,8 @@ import time
 from harness import common, scriptlib
 
 PROP = 'C06'
-THEOREMS = ['C06_first', 'C06_second', 'C06_marks', 'C06_marks_cost', 'C06_text_partial']
+THEOREMS = ['C06_first', 'C06_second', 'C06_marks', 'C06_marks_cost', 'C06_text_partial', 'C06_reads',
+            'C06_reads_ordered_partial']
 MODELS = ['theories/RenderModel.vo', 'theories/ScriptKnown.vo']
 HEADER = ('From Coq Require Import List Bool ZArith String.\n'
           'Require Import GT.PyBase GT.Data GT.ScriptSpec GT.JsonSpec GT.RenderSpec.\n'
